@@ -305,6 +305,8 @@ def root_name(node):
 
 def call_name(call):
     """Simple name of the callee: f(...) -> 'f'; a.b.f(...) -> 'f'."""
+    if not isinstance(call, ast.Call):
+        return None
     f = call.func
     if isinstance(f, ast.Name):
         return f.id
